@@ -1,7 +1,12 @@
--- REGENERATED from src/core/build_label.go, src/core/build_target.go by /verif/harness/extract/c33 on every run. Do not edit.
+-- REGENERATED from src/core/build_label.go, src/core/build_target.go, src/parse/asp/builtins.go, src/parse/asp/config.go, src/parse/asp/targets.go by /verif/harness/extract/c33 on every run. Do not edit.
 namespace PlzVerif.Generated.C33
 def canSeeSteps : List String := ["if SELF.PackageName == DEP.Label.PackageName -> true", "if DEP.Label.isExperimental(STATE) && !SELF.isExperimental(STATE) -> false", "for V in DEP.Visibility: if V.Includes(PARENT) -> true", "if DEP.Label.PackageName == PARENT.PackageName -> true", "if SELF.isExperimental(STATE) -> true", "return false"]
 def canSeeMentionsSubrepo : Bool := false
 def targetCanSeeDelegates : Bool := true
 def checkSteps : List String := ["for D in SELF.dependencies", "DEP := STATE.Graph.TargetOrDie(*D.declared)", "if !SELF.CanSee(STATE, DEP) -> error", "if DEP.TestOnly && !SELF.IsTest() && !SELF.TestOnly -> nested { if SELF.Label.isExperimental(STATE) -> continue else -> error }", "return nil"]
+def defaultUnsetTest : String := "ARG == nil || ARG == None"
+def buildRuleDefaults : List String := ["visibilityBuildRuleArgIdx=DEFAULT_VISIBILITY", "testOnlyBuildRuleArgIdx=DEFAULT_TESTONLY", "licencesBuildRuleArgIdx=DEFAULT_LICENCES", "sandboxBuildRuleArgIdx=BUILD_SANDBOX", "testSandboxBuildRuleArgIdx=TEST_SANDBOX"]
+def buildRuleDefaultsAligned : Bool := true
+def configDefaults : List String := ["DEFAULT_VISIBILITY=None", "DEFAULT_TESTONLY=False"]
+def populateVisibilityCond : String := "vis, ok := asList(args[visibilityBuildRuleArgIdx]); ok && len(vis) != 0"
 end PlzVerif.Generated.C33
